@@ -6,6 +6,7 @@ From Coq Require Import ZArith List Bool.
 From BV Require Import Lib.PyVal Gen.K_restart Model.Restart Proofs.RestartProofs.
 From BV Require Import Proofs.PoolInv Proofs.PoolTick Proofs.PoolSize.
 From BV Require Gen.G_pool_shape Model.Pool Proofs.PoolSup.
+From BV Require Gen.G_pool_pins.
 Import ListNotations.
 Open Scope Z_scope.
 
@@ -136,3 +137,11 @@ Example C11_budget_witness :
   Inv 2 s /\ in_window s 101 /\ in_window s 104 /\
   steps s [101; 104] = (mk_rs 0 (Some 100) (Some 2) 5, [false; true]).
 Proof. cbn. repeat split; try discriminate; try reflexivity. Qed.
+
+(* the parent-side functions of billiard/pool.py these theorems are about are, on this run, the very
+   text the hand-written model was read against and is validated against by the correspondence
+   (digests of their ASTs, translate/kernels/poolpins.py): any edit of one of them breaks this
+   obligation and starts the deeper search for a failing history *)
+Theorem C11_modelled_code_is_the_validated_text : G_pool_pins.modelled_code_of_C11 = true.
+Proof. reflexivity. Qed.
+Print Assumptions C11_modelled_code_is_the_validated_text.
